@@ -1,10 +1,11 @@
 //! Iterator-protocol oracle: an iterator handed out by the library must behave like the sequence it
 //! stands for under *every* way the std `Iterator` API can consume it, not only under `next()` /
 //! `collect()`. A script of consuming calls (next, nth, skip, step_by, size_hint, count, last, ...)
-//! is applied to the library iterator and to `model.into_iter()` (a `Vec` of the expected items);
-//! every observable result must agree. Only calls whose result the `Iterator` contract fixes are
-//! compared: nothing is asked of an iterator after it returned `None` (it need not be fused), and
-//! `size_hint` must only *bracket* the true remaining count.
+//! is applied to the library iterator and to the `Vec` of the expected items; every observable result
+//! must agree. Only calls whose result the `Iterator` contract fixes are compared: nothing is asked of
+//! an iterator after it returned `None` (it need not be fused), and `size_hint` must only *bracket*
+//! the true remaining count. For iterators that are `Clone`, a clone taken in mid-stream must continue
+//! exactly like the original (`CloneRest`).
 
 use serde::{Deserialize, Serialize};
 use std::fmt::Debug;
@@ -21,6 +22,9 @@ pub enum ItOp {
     Count,
     Last,
     Fold,
+    /// (iterators that are `Clone` only, otherwise a no-op) clone the iterator as it stands, drain the
+    /// CLONE and compare it with what remains; the original continues with the rest of the script
+    CloneRest,
 }
 
 pub fn script_strategy(max_ops: usize) -> proptest::strategy::BoxedStrategy<Vec<ItOp>> {
@@ -35,6 +39,7 @@ pub fn script_strategy(max_ops: usize) -> proptest::strategy::BoxedStrategy<Vec<
         1 => Just(ItOp::Count),
         1 => Just(ItOp::Last),
         1 => Just(ItOp::Fold),
+        2 => Just(ItOp::CloneRest),
     ];
     proptest::collection::vec(op, 1..=max_ops).boxed()
 }
@@ -42,31 +47,43 @@ pub fn script_strategy(max_ops: usize) -> proptest::strategy::BoxedStrategy<Vec<
 pub struct Outcome {
     /// a positional call (nth / skip / step_by / take) was made on an iterator that had already been advanced
     pub positional_after_advance: bool,
+    /// a clone of an already advanced iterator was drained and compared
+    pub clone_after_advance: bool,
     pub ops_done: usize,
 }
 
 /// Drives `real` and the model through `script`; afterwards drains both and compares the rest.
-/// `what` names the iterator in messages. Item type must be comparable.
+/// `what` names the iterator in messages; `key` projects an item to something comparable.
 ///
 /// The library iterator keeps its concrete type until the first adaptor (skip / step_by) wraps it, so
 /// that overrides of `nth`, `count`, `last`, `fold` and `size_hint` on the library type are the ones
 /// called (through `Box<dyn Iterator>` only `next`, `nth` and `size_hint` are forwarded).
-pub fn drive<'a, T: 'a, K: PartialEq + Debug + 'a, I: Iterator<Item = T> + 'a>(what: &str, real: I, model: Vec<K>, key: impl Fn(T) -> K + 'a, script: &[ItOp]) -> Result<Outcome, String> {
+pub fn drive<'a, T: 'a, K: PartialEq + Debug + Clone + 'a, I: Iterator<Item = T> + 'a>(what: &str, real: I, model: Vec<K>, key: impl Fn(T) -> K + 'a, script: &[ItOp]) -> Result<Outcome, String> {
+    drive_inner(what, real, model, key, script, None)
+}
+
+/// as `drive`, for iterators that implement `Clone`: the `CloneRest` steps of the script are carried out
+pub fn drive_cl<'a, T: 'a, K: PartialEq + Debug + Clone + 'a, I: Iterator<Item = T> + Clone + 'a>(what: &str, real: I, model: Vec<K>, key: impl Fn(T) -> K + 'a, script: &[ItOp]) -> Result<Outcome, String> {
+    drive_inner(what, real, model, key, script, Some(|i: &I| i.clone()))
+}
+
+fn drive_inner<'a, T: 'a, K: PartialEq + Debug + Clone + 'a, I: Iterator<Item = T> + 'a>(what: &str, real: I, model: Vec<K>, key: impl Fn(T) -> K + 'a, script: &[ItOp], cloner: Option<fn(&I) -> I>) -> Result<Outcome, String> {
     // split the script at the first adaptor: the prefix runs on the concrete type
     let cut = script.iter().position(|o| matches!(o, ItOp::Skip(_) | ItOp::StepBy(_))).unwrap_or(script.len());
     let total = model.len();
-    let mut model: Box<dyn Iterator<Item = K> + 'a> = Box::new(model.into_iter());
+    let mut pos = 0usize; // items of `model` consumed so far (concrete phase)
     let mut real = real;
     let mut advanced = false;
-    let mut out = Outcome { positional_after_advance: false, ops_done: 0 };
+    let mut out = Outcome { positional_after_advance: false, clone_after_advance: false, ops_done: 0 };
     let mut trace: Vec<ItOp> = Vec::new();
+    // no iterator may yield more than this many items in one draining call (guards against rewinding iterators)
     let cap = total + 3;
     for &op in &script[..cut] {
         trace.push(op);
         out.ops_done += 1;
         match op {
             ItOp::Next => {
-                let (r, m) = (real.next().map(&key), model.next());
+                let (r, m) = (real.next().map(&key), model.get(pos).cloned());
                 if r != m {
                     return Err(format!("{}: after {:?} next() returns {:?}, the sequence continues with {:?}", what, trace, r, m));
                 }
@@ -74,10 +91,11 @@ pub fn drive<'a, T: 'a, K: PartialEq + Debug + 'a, I: Iterator<Item = T> + 'a>(w
                 if m.is_none() {
                     return Ok(out);
                 }
+                pos += 1;
             }
             ItOp::Nth(n) => {
                 out.positional_after_advance |= advanced;
-                let (r, m) = (real.nth(n as usize).map(&key), model.nth(n as usize));
+                let (r, m) = (real.nth(n as usize).map(&key), model.get(pos + n as usize).cloned());
                 if r != m {
                     return Err(format!("{}: after {:?} nth({}) returns {:?}, the sequence gives {:?}", what, trace, n, r, m));
                 }
@@ -85,27 +103,41 @@ pub fn drive<'a, T: 'a, K: PartialEq + Debug + 'a, I: Iterator<Item = T> + 'a>(w
                 if m.is_none() {
                     return Ok(out);
                 }
+                pos += n as usize + 1;
             }
             ItOp::Hint => {
                 let (lo, hi) = real.size_hint();
-                let rem = model.size_hint().0;
+                let rem = total - pos;
                 if lo > rem || hi.map_or(false, |h| h < rem) {
                     return Err(format!("{}: after {:?} size_hint() = ({}, {:?}) does not bracket the {} items that remain", what, trace, lo, hi, rem));
                 }
             }
             ItOp::TakeRef(n) => {
                 let r: Vec<K> = real.by_ref().take(n as usize).map(&key).collect();
-                let m: Vec<K> = model.by_ref().take(n as usize).collect();
+                let end = (pos + n as usize).min(total);
+                let m: Vec<K> = model[pos..end].to_vec();
                 if r != m {
                     return Err(format!("{}: after {:?} by_ref().take({}) yields {:?}, the sequence gives {:?}", what, trace, n, r, m));
                 }
                 advanced |= n > 0;
                 if m.len() < n as usize {
-                    return Ok(out);
+                    return Ok(out); // ran into the end: nothing may be asked afterwards
+                }
+                pos = end;
+            }
+            ItOp::CloneRest => {
+                if let Some(cl) = cloner {
+                    let copy = cl(&real);
+                    let r: Vec<K> = copy.take(cap).map(&key).collect();
+                    let m: Vec<K> = model[pos..].to_vec();
+                    if r != m {
+                        return Err(format!("{}: after {:?} a clone() of the iterator yields {:?}, the rest of the sequence is {:?}", what, trace, r, m));
+                    }
+                    out.clone_after_advance |= advanced;
                 }
             }
             ItOp::Count => {
-                let m = model.count();
+                let m = total - pos;
                 let r = real.count();
                 if r != m {
                     return Err(format!("{}: after {:?} count() = {}, {} items remain", what, trace, r, m));
@@ -113,7 +145,7 @@ pub fn drive<'a, T: 'a, K: PartialEq + Debug + 'a, I: Iterator<Item = T> + 'a>(w
                 return Ok(out);
             }
             ItOp::Last => {
-                let m = model.last();
+                let m = if pos < total { model.last().cloned() } else { None };
                 let r = real.last().map(&key);
                 if r != m {
                     return Err(format!("{}: after {:?} last() = {:?}, the sequence ends with {:?}", what, trace, r, m));
@@ -121,7 +153,7 @@ pub fn drive<'a, T: 'a, K: PartialEq + Debug + 'a, I: Iterator<Item = T> + 'a>(w
                 return Ok(out);
             }
             ItOp::Fold => {
-                let m: Vec<K> = model.collect();
+                let m: Vec<K> = model[pos..].to_vec();
                 let mut n = 0usize;
                 let r: Vec<K> = real.fold(Vec::new(), |mut v, x| {
                     n += 1;
@@ -140,14 +172,16 @@ pub fn drive<'a, T: 'a, K: PartialEq + Debug + 'a, I: Iterator<Item = T> + 'a>(w
     }
     let script = &script[cut..];
     if script.is_empty() {
-        let m: Vec<K> = model.collect();
+        let m: Vec<K> = model[pos..].to_vec();
         let r: Vec<K> = real.take(cap).map(&key).collect();
         if r != m {
             return Err(format!("{}: after {:?} the remaining items are {:?}, the rest of the sequence is {:?}", what, trace, r, m));
         }
         return Ok(out);
     }
+    // ---- adaptor phase: both sides boxed
     let mut real: Box<dyn Iterator<Item = T> + 'a> = Box::new(real);
+    let mut model: Box<dyn Iterator<Item = K> + 'a> = Box::new(model.into_iter().skip(pos));
     for &op in script {
         trace.push(op);
         out.ops_done += 1;
@@ -176,7 +210,6 @@ pub fn drive<'a, T: 'a, K: PartialEq + Debug + 'a, I: Iterator<Item = T> + 'a>(w
             ItOp::Hint => {
                 let (lo, hi) = real.size_hint();
                 let rem = model.size_hint().0; // exact for vec::IntoIter under skip/step_by
-                debug_assert_eq!(model.size_hint().1, Some(rem));
                 if lo > rem || hi.map_or(false, |h| h < rem) {
                     return Err(format!("{}: after {:?} size_hint() = ({}, {:?}) does not bracket the {} items that remain", what, trace, lo, hi, rem));
                 }
@@ -199,9 +232,10 @@ pub fn drive<'a, T: 'a, K: PartialEq + Debug + 'a, I: Iterator<Item = T> + 'a>(w
                 }
                 advanced |= n > 0;
                 if m.len() < n as usize {
-                    return Ok(out); // ran into the end: nothing may be asked afterwards
+                    return Ok(out);
                 }
             }
+            ItOp::CloneRest => {}
             ItOp::Count => {
                 let m = model.count();
                 // count() of a rewinding iterator would not terminate: bound it through take
@@ -228,14 +262,8 @@ pub fn drive<'a, T: 'a, K: PartialEq + Debug + 'a, I: Iterator<Item = T> + 'a>(w
                 return Ok(out);
             }
             ItOp::Fold => {
-                let m: Vec<K> = model.fold(Vec::new(), |mut v, x| {
-                    v.push(x);
-                    v
-                });
-                let r: Vec<K> = real.take(cap).fold(Vec::new(), |mut v, x| {
-                    v.push(key(x));
-                    v
-                });
+                let m: Vec<K> = model.collect();
+                let r: Vec<K> = real.take(cap).map(&key).collect();
                 if r != m {
                     return Err(format!("{}: after {:?} fold() visits {:?}, the rest of the sequence is {:?}", what, trace, r, m));
                 }
